@@ -7,13 +7,16 @@
    * VM::enter_no_gc saturates at MAX_NO_GC_DEPTH, VM::exit_no_gc floors at 0           [runtime/src/vm/gc.rs]
    * maybe_collect returns before anything else when no_gc_depth > 0                    [gc.rs]
    * compile_typed_body: params; EnterNoGc; body; (value of a trailing expression); ExitNoGc; Return
-   * compile_typed_return: ExitNoGc; <return expression>; Return   -- the order is read from the source
-     by the translator (Extracted.NoGcConsts.return_exit_order)
+   * compile_typed_return: <return expression>; ExitNoGc; Return (before the repair of KF-C13-1: ExitNoGc
+     first) -- the order is read from the source and from compiled code by the translator
+     (Extracted.NoGcConsts.return_exit_order)
    * nested fn / lambda: compiled by their own compiler (own has_no_gc flag); the declaration is an
      allocation point (function object) in the enclosing function
    * the inliner replaces a call of a function whose body is one `return e` / `e` over parameters and
-     literals by e, ignoring @no_gc                                                       [opt/src/passes/inline]
-   * nothing resets no_gc_depth when a run ends with an error (run_with_vm only clears frames) *)
+     literals by e, unless the function carries @no_gc (before the repair of KF-C13-3 it ignored
+     @no_gc)                                                                              [opt/src/passes/inline]
+   * run_fast puts no_gc_depth back to its value at entry when the run ends with an error
+     (before the repair of KF-C13-2 nothing did; `run_vm_raw` is the run without that step) *)
 From Coq Require Import NArith ZArith Bool List.
 From Aelys Require Import Extracted.NoGcConsts.
 Import ListNotations.
@@ -73,11 +76,14 @@ Definition inline_body (s : stmt) : option expr :=
   | SReturn e | SExpr e | SSeq (SReturn e) SSkip | SSeq (SExpr e) SSkip => if no_calls e then Some e else None
   | _ => None
   end.
-Definition inline_of (P : list fn) (f : nat) : option code :=
+(* skip_nogc: the inliner leaves functions carrying @no_gc alone (read from compiled code by the translator) *)
+Definition inline_of_gen (skip_nogc : bool) (P : list fn) (f : nat) : option code :=
   match nth_error P f with
-  | Some fd => if f_leaf fd then option_map emit_expr0 (inline_body (f_body fd)) else None
+  | Some fd => if f_leaf fd && negb (skip_nogc && f_nogc fd)
+               then option_map emit_expr0 (inline_body (f_body fd)) else None
   | None => None
   end.
+Definition inline_of := inline_of_gen inliner_skips_no_gc.
 Fixpoint emit_expr (inl : bool) (P : list fn) (e : expr) : code :=
   match e with
   | EAtom => KNil | ESafe => KSafe | EFail => KFail
@@ -283,14 +289,24 @@ Definition FUEL : nat := 3000.
 Definition ndefs_state (d0 nd : N) : vst := mkV d0 nd (if is_in_no_gc d0 then nd else 0).
 (* the top-level code: one function object per top-level declaration, then the statements;
    the top-level function is never @no_gc *)
-Definition run_vm (ord : ret_order) (inl : bool) (P : prog) (n0 : Z) (d0 : N) : oc * vst :=
+Definition run_vm_raw (ord : ret_order) (inl : bool) (P : prog) (n0 : Z) (d0 : N) : oc * vst :=
   vm_exec FUEL (emit_tbl ord inl (p_fns P)) (emit_stmt ord inl (p_fns P) false (p_main P)) n0 0%Z
           (ndefs_state d0 (p_ndefs P)).
+(* run_fast: when the run fails, the frames are dropped and no_gc_depth is put back to its value at entry
+   (`restores` is read from the behaviour of compiled code by the translator) *)
+Definition restore_on_err (restores : bool) (d0 : N) (r : oc * vst) : oc * vst :=
+  match r with
+  | (OErr, st) => if restores then (OErr, set_depth st d0) else r
+  | (OUnder, st) => if restores then (OUnder, set_depth st d0) else r
+  | _ => r
+  end.
+Definition run_vm (ord : ret_order) (inl : bool) (P : prog) (n0 : Z) (d0 : N) : oc * vst :=
+  restore_on_err error_restores_depth d0 (run_vm_raw ord inl P n0 d0).
 Definition run_src (P : prog) (n0 : Z) : oc * sst :=
   src_stmt FUEL (p_fns P) (p_main P) n0 0%Z 0 (mkS (p_ndefs P) 0).
 
 (* what the driver does between REPL inputs: run_with_vm_and_opt starts with vm.clear_frames();
-   no_gc_depth is not touched, neither after Ok nor after Err *)
+   no_gc_depth is not touched by the driver (the restore after a failed run is inside run_fast, see run_vm) *)
 Definition driver_next_depth (o : oc) (st : vst) : N := v_depth st.
 Fixpoint session_with (run : prog -> Z -> N -> oc * vst) (inputs : list (prog * Z)) (d : N) : list (oc * N) :=
   match inputs with
